@@ -237,6 +237,11 @@ def new_version(data, allow_custom=None, **kwargs):
     changed_properties = set(kwargs)
     if isinstance(kwargs.get("custom_properties"), Mapping):
         changed_properties.update(kwargs["custom_properties"])
+        if "modified" in kwargs["custom_properties"]:
+            # ... a modified time too: it is checked below like any other.
+            kwargs.setdefault(
+                "modified", kwargs["custom_properties"]["modified"],
+            )
 
     unchangable_properties = set()
     for prop in itertools.chain(STIX_UNMOD_PROPERTIES, sco_locked_props):
